@@ -230,6 +230,9 @@ func runXfBall(c *hlib.Ctx, n int) {
 		switch {
 		case k == 1 && c.Rng.Intn(2) == 0:
 			inner, innerName = tris[0], "Triangle"
+		case c.Rng.Intn(3) == 0:
+			// a hand-built BVH with branches of 2..6 children (bvh_boolean_query: still every triangle)
+			inner, _, _, innerName = wideBVH3(c, "tballx", tris)
 		case c.Rng.Intn(2) == 0:
 			inner, innerName = model3d.MeshToCollider(model3d.NewMeshTriangles(tris)), "MeshToCollider"
 		default:
@@ -329,6 +332,8 @@ func runXfBall(c *hlib.Ctx, n int) {
 		var inner model2d.Collider
 		if k == 1 && c.Rng.Intn(2) == 0 {
 			inner = segs[0]
+		} else if len(segs) > 0 && c.Rng.Intn(3) == 0 {
+			inner, _, _, _ = wideBVH2(c, "tcircx", segs)
 		} else if c.Rng.Intn(2) == 0 {
 			inner = model2d.MeshToCollider(model2d.NewMeshSegments(segs))
 		} else {
@@ -444,11 +449,13 @@ func runContainExact(c *hlib.Ctx, n int) {
 		}
 		tris = uniqueTris(tris) // coincident faces would be a mesh that is not in general position for any ray
 		var col model3d.Collider
-		switch c.Rng.Intn(3) {
+		switch c.Rng.Intn(5) {
 		case 0:
 			col = model3d.MeshToCollider(model3d.NewMeshTriangles(tris))
 		case 1:
 			col = model3d.GroupedTrianglesToCollider(append([]*model3d.Triangle{}, tris...))
+		case 2, 3:
+			col, _, _, _ = wideBVH3(c, "containx", tris)
 		default:
 			col = model3d.BVHToCollider(model3d.NewBVHAreaDensity(append([]*model3d.Triangle{}, tris...)))
 		}
